@@ -36,7 +36,9 @@ func Issues(ctx context.Context, client *gitlab.Client, pid string, since time.T
 				out <- issue
 			}
 
-			if resp.CurrentPage >= resp.TotalPages {
+			// X-Total-Pages is not always sent (collections of more than
+			// 10000 items), X-Next-Page is: empty on the last page
+			if resp.NextPage == 0 {
 				break
 			}
 
@@ -72,7 +74,9 @@ func Notes(ctx context.Context, client *gitlab.Client, issue *gitlab.Issue) <-ch
 				out <- NoteEvent{*note}
 			}
 
-			if resp.CurrentPage >= resp.TotalPages {
+			// X-Total-Pages is not always sent (collections of more than
+			// 10000 items), X-Next-Page is: empty on the last page
+			if resp.NextPage == 0 {
 				break
 			}
 
@@ -107,7 +111,9 @@ func LabelEvents(ctx context.Context, client *gitlab.Client, issue *gitlab.Issue
 				out <- le
 			}
 
-			if resp.CurrentPage >= resp.TotalPages {
+			// X-Total-Pages is not always sent (collections of more than
+			// 10000 items), X-Next-Page is: empty on the last page
+			if resp.NextPage == 0 {
 				break
 			}
 
@@ -139,7 +145,9 @@ func StateEvents(ctx context.Context, client *gitlab.Client, issue *gitlab.Issue
 				out <- StateEvent{*e}
 			}
 
-			if resp.CurrentPage >= resp.TotalPages {
+			// X-Total-Pages is not always sent (collections of more than
+			// 10000 items), X-Next-Page is: empty on the last page
+			if resp.NextPage == 0 {
 				break
 			}
 
